@@ -64,13 +64,20 @@ def run(ctx: Ctx) -> None:
         targets: list[ast.AST] = list(impl_invocations(fi)) + (calls_named(fi, *dispatch_names) if dispatch_names else [])
         some(targets, "dispatch of the implementation", fi)
         kw_names: set[str] = set()
+        # the kwargs object is the second element of `<method>, <kwargs> = _read_request(...)`
+        rr_kw: set[str] = set()
+        for n in walk_scope(fi.node):
+            if isinstance(n, ast.Assign) and isinstance(n.value, ast.Call) and last_attr(n.value) == "_read_request":
+                for tg0 in n.targets:
+                    if isinstance(tg0, ast.Tuple) and len(tg0.elts) == 2 and isinstance(tg0.elts[1], ast.Name):
+                        rr_kw.add(tg0.elts[1].id)
         for t in targets:
             if isinstance(t, ast.Call):
                 for k in t.keywords:
                     if k.arg is None and isinstance(k.value, ast.Name):
                         kw_names.add(k.value.id)
                 for a in t.args:
-                    if isinstance(a, ast.Name) and a.id == "kwargs":
+                    if isinstance(a, ast.Name) and a.id in rr_kw:
                         kw_names.add(a.id)
         if not kw_names:
             raise AnalysisError(f"C06: cannot identify the kwargs variable handed to the method in {fi.fq}")
@@ -210,16 +217,44 @@ def run(ctx: Ctx) -> None:
         if d == d2 and d != e and tg and gcfg.exit not in gcfg.reach(tg):
             okc = True
     ctx.check(okc, "RF-TABLE", "signature-compares:field-count", sig, cnt[0] if cnt else None, ok="a different number of fields is refused", bad="field count is not compared (added/dropped columns reach the method)")
-    # unexpected / missing names raise
-    for what in ("unexpected", "missing"):
-        ifs = [n for n in walk_scope(sig.node) if isinstance(n, ast.If) and isinstance(n.test, ast.Name) and n.test.id == what]
-        okw = bool(ifs) and any(isinstance(x, ast.Raise) for x in walk_scope(ifs[0]))
-        ctx.check(okw, "RF-TABLE", f"signature-refuses:{what}-names", sig, ifs[0] if ifs else None, ok=f"{what} parameter names raise TypeError", bad=f"{what} parameter names are not refused")
+    # unexpected / missing names raise: decided by evaluating each raising guard's defining expression on sample requests
+    sp = [a.arg for a in sig.node.args.args]
+    if len(sp) < 4:
+        raise AnalysisError("C06: unexpected signature of _validate_call_signature")
+    kw_p, types_p, defaults_p = sp[1], sp[2], sp[3]
+    samples = {
+        "unexpected": ({"a": 1, "zz": 2}, {"a": int}, {}),
+        "missing": ({}, {"a": int}, {}),
+        "ok": ({"a": 1}, {"a": int, "b": int}, {"b": 0}),
+        "ctx-only-extra": ({"a": 1, "ctx": 0}, {"a": int}, {}),
+    }
+    verdict: dict[str, bool] = {k: False for k in samples}
+    defs1 = {n.targets[0].id: n.value for n in walk_scope(sig.node) if isinstance(n, ast.Assign) and len(n.targets) == 1 and isinstance(n.targets[0], ast.Name)}
+    for n in walk_scope(sig.node):
+        if not (isinstance(n, ast.If) and any(isinstance(x, ast.Raise) for x in walk_scope(n))):
+            continue
+        tn = names_in(n.test)
+        if not tn or not tn <= set(defs1) or enclosing(gcfg, n, (ast.For, ast.While)):
+            continue
+        for label, (kw, types, dflt) in samples.items():
+            env: dict[str, object] = {kw_p: kw, types_p: types, defaults_p: dflt}
+            try:
+                for name in tn:
+                    env[name] = mini_eval(defs1[name], env)
+                if mini_eval(n.test, env):
+                    verdict[label] = True
+            except AnalysisError:
+                continue
+    ctx.check(verdict["unexpected"], "RF-TABLE", "signature-refuses:unexpected-names", sig, None, ok="a request naming an undeclared parameter raises TypeError", bad="unexpected parameter names are not refused")
+    ctx.check(verdict["missing"], "RF-TABLE", "signature-refuses:missing-names", sig, None, ok="a request lacking a required parameter raises TypeError", bad="missing parameter names are not refused")
+    ctx.check(not verdict["ok"] and not verdict["ctx-only-extra"], "RF-TABLE", "signature-accepts:conforming-names", sig, None, ok="a conforming name set (defaults omitted, framework ctx) is not refused by the name checks",
+              bad="the name checks refuse a conforming request (omitted defaulted parameter or framework-injected ctx)")
     # the compared schema is the schema the kwargs were read from
     rr = ctx.fn("vgi_rpc/rpc/_wire.py:_read_request")
     sets = [c for c in calls(rr) if last_attr(c) == "set" and "_current_request_param_schema" in txt(c.func)]
     s1 = one(sets, "request param schema recording", rr)
-    kw_assign = [n for n in walk_scope(rr.node) if isinstance(n, ast.Assign) and any(isinstance(t, ast.Name) and t.id == "kwargs" for t in n.targets)]
+    ret_names = {e.id for r in walk_scope(rr.node) if isinstance(r, ast.Return) and isinstance(r.value, ast.Tuple) and len(r.value.elts) == 2 for e in [r.value.elts[1]] if isinstance(e, ast.Name)}
+    kw_assign = [n for n in walk_scope(rr.node) if isinstance(n, ast.Assign) and any(isinstance(t, ast.Name) and t.id in ret_names for t in n.targets)]
     ka = one(kw_assign, "kwargs construction", rr)
     bvar = names_in(s1.args[0]) & names_in(ka.value)
     ctx.check(bool(bvar), "RF-TAINT", "recorded-schema-is-kwargs-source", rr, s1, ok="the schema recorded for the signature check is the schema of the batch the kwargs are read from",
